@@ -178,6 +178,9 @@ def step (s : St) (line : String) : St × String :=
   | ["reset"] =>
     if !s.isStore then (s, "bad-op") else
     ({ s with cached := none, pending := [], txn := none }, "ok")
+  | ["flush"] =>
+    -- `db.Flush()`: the memtable goes to an sstable; nothing the model can see
+    if !s.isStore then (s, "bad-op") else (s, "ok")
   | ["reopen"] =>
     if !s.isStore then (s, "bad-op") else
     ({ s with cached := none, pending := [], txn := none }, "version " ++ toString s.version)
